@@ -33,6 +33,16 @@ CLAIMS = {
          "known finding, third-party) and proved for windows whose first arrival finds the key not fully replenished; tied by exact differential runs against governor under its "
          "fake clock, real-time runs of the real layer, and a 200k-request hunt for the (fixed) zero wait-nanos race.",
          "governor internals and the real clock are trusted."),
+ "C16": ("Coq theorems about the route table of anemo::Router (exact and catch-all patterns): every table built by any program of route/add_rpc_service/route_layer/merge "
+         "calls is conflict-free so at most one route matches; exact/tail/rpc-prefix hits; NotFound exactly when nothing matches (empty and non-'/' routes in particular); "
+         "merge preserves service and middleware of both sides; a route layer applies to exactly the routes registered before it; tied by differential runs of the real Router "
+         "on random builder programs (incl. rejected ones) and ~40 route strings each.",
+         "matchit 0.5.0's radix tree and its panic-freedom are exercised, not proved; ':param' patterns are outside the model."),
+ "C17": ("Coq theorems: client and server route expressions agree, every client route lies under the prefix add_rpc_service registers (so C16 delivers it), distinct method "
+         "names give distinct routes and the generated match selects the method of the same name; Status <-> Response mapping keeps code, message and other headers; typed call "
+         "outcomes for any round-tripping message codecs (Ok only from success statuses, handler errors intact, undecodable payloads -> Unknown); tied by comparing the string "
+         "literals of anemo-build's generated token streams on random definitions and by typed calls through build.rs-generated clients/servers behind the real Router.",
+         "serde_json/bincode message codecs are assumed to round-trip (explicit hypotheses)."),
 }
 
 def main():
